@@ -80,16 +80,6 @@ def leN (m : Mem) (a : Nat) : Nat → Nat
 def load (e : Endian) (k : Nat) (m : Mem) (a : Nat) : Nat :=
   match e with | .little => leN m a k | .big => beN m a k
 
-/-- bytes of `x`, most significant first (`k` bytes). -/
-def bytesBE : Nat → Nat → List Byte
-  | 0, _ => []
-  | k + 1, x => Fin.ofNat 256 (x / 256 ^ k) :: bytesBE k x
-
-/-- bytes of `x`, least significant first (`k` bytes). -/
-def bytesLE : Nat → Nat → List Byte
-  | 0, _ => []
-  | k + 1, x => Fin.ofNat 256 x :: bytesLE k (x / 256)
-
 /-- `*(uintN_t*)a = x` on a host of byte order `e`. -/
 def store (e : Endian) (k : Nat) (m : Mem) (a x : Nat) : Mem :=
   match e with | .little => m.write a (bytesLE k x) | .big => m.write a (bytesBE k x)
